@@ -45,7 +45,8 @@ Section Rel.
   | RImplNo n ts :
       pt_trigger T (hdk ts) = false -> Run (CImpl n) ts (n, ts)
   (* parse_number *)
-  | RPrimNum v ts' r : Run (CImpl (NNum v)) ts' r -> Run CPrim (TNum v :: ts') r
+  | RPrimNum v ts' r : pt_numnum T || negb (kind_eqb (hdk ts') KNum) = true ->
+      Run (CImpl (NNum v)) ts' r -> Run CPrim (TNum v :: ts') r
   | RPrimAns ts' : pt_ans T = true -> Run CPrim (TK KAns :: ts') (NNum ph, ts')
   | RPrimF1 f u ts'' r :
       pt_fn T f = Some (F1 u) -> Run (CArg1 u) ts'' r -> Run CPrim (TK (KFunc f) :: TK KLeftParen :: ts'') r
@@ -118,7 +119,7 @@ Section Equiv.
     destruct c; simpl in H.
     - inv_bind H. eapply RGen; eauto.
     - destruct ts as [|t ts']; [discriminate|].
-      destruct t as [k|v|v]; [|apply RPrimNum; eauto|discriminate].
+      destruct t as [k|v|v]; [|destruct (pt_numnum T || negb (kind_eqb (hdk ts') KNum)) eqn:Enn; [apply RPrimNum; eauto|discriminate]|discriminate].
       destruct k; try discriminate;
         try (destruct (pt_const T _) eqn:Ec;
              [inversion H; subst; apply RPrimConst; [reflexivity|assumption]|];
@@ -183,7 +184,7 @@ Section Equiv.
     clear IH Hle.
     destruct c; simpl in H |- *.
     - inv_bind H. rewrite (IH' _ _ _ E). simpl. auto.
-    - destruct ts as [|[k|v|v] ts']; try discriminate; [|auto].
+    - destruct ts as [|[k|v|v] ts']; try discriminate; [|destruct (pt_numnum T || negb (kind_eqb (hdk ts') KNum)); [auto|discriminate]].
       destruct k; try discriminate; try exact H;
         try (destruct (pt_const T _); [exact H|];
              destruct (pt_open T _) as [[close w]|]; [|discriminate];
@@ -263,7 +264,7 @@ Section Bound.
     - simpl. rewrite H, H0, H1, H2. apply IHRun. arith.
     - rewrite H. rewrite IHRun by arith. reflexivity.
     - rewrite H. reflexivity.
-    - apply IHRun. arith.
+    - rewrite H. apply IHRun. arith.
     - rewrite H. reflexivity.
     - rewrite H. simpl. apply IHRun. arith.
     - rewrite H. simpl. apply IHRun. arith.
